@@ -90,7 +90,11 @@ def build_lib(variant):
                 cmd += ["-DBUILD_SHARED_LIBS=OFF", "-DXZ_NLS=OFF", "-DXZ_DOC=OFF"] + extra
             else:
                 cmd += COMMON + extra
-            if _run(cmd, log) != 0:
+            # clang 14 crashes on one of the CMake feature probes (__builtin_assume_aligned("", 1)) and drops a crash reproducer into
+            # TMPDIR each time: keep those inside the build directory instead of /tmp
+            tmpd = os.path.join(d, "tmp")
+            os.makedirs(tmpd, exist_ok=True)
+            if _run(cmd, log, env=dict(os.environ, TMPDIR=tmpd)) != 0:
                 raise BuildError(f"cmake configure failed for {variant}; see {log}")
         cmd = ["cmake", "--build", d, "--target"] + targets
         if _run(cmd, log) != 0:
